@@ -22,11 +22,14 @@ ASSUMPTIONS = [
     "decisions fall within 1e-6 of a border are excluded from the model comparison (not from the oracle)",
     "the packet-data-rate limiter (annex B.2) is not modelled; histories stay below its threshold",
     "flood termination is checked on the implementation in 3-5 station line/mesh networks; the theorem gives RHL-1 per hop",
+    "secured reception (Model/RouterSecured.v): the verify service is an oracle returning the plain message; the harness uses a "
+    "pass-through verify service (secured message = plain message) and gives the model the unsecured equivalent of each packet",
 ]
 EXPLANATION = ("theorems: duplicate rejected while fewer than DPL-length other numbers were accepted (any history), a rejected "
                "duplicate is neither delivered nor forwarded (6 packet types), own packets ignored, every forwarded copy has "
                "RHL-1 and none for RHL 0/1 (any frame/state), CBF buffered copy dropped on duplicate and sent at most once, DE "
-               "PV refreshed only by newer; correspondence of single-station histories + multi-station floods on real routers")
+               "PV refreshed only by newer; secured packets: full clause refuted (KF-C06-1), actual behaviour proved; correspondence of "
+               "single-station histories (unsecured and secured branch) + multi-station floods on real routers")
 
 M32 = 2 ** 32
 MH = ("tsb", "gbc", "gac", "guc", "lsreq", "lsrep")
